@@ -37,12 +37,16 @@ func inflightCases() []Case {
 	}
 	cs = append(cs, talkativeCases()...)
 	cs = append(cs, acceptCases()...)
+	cs = append(cs, midHandshakeCases()...)
 	return append(cs, sessQueueCases()...)
 }
 
 func runInflight(c Case) (f *fail) {
 	if strings.HasPrefix(c.Scenario, "talkative-server") {
 		return runTalkative(c)
+	}
+	if strings.HasPrefix(c.Scenario, "client-close-mid-handshake/") {
+		return runMidHandshake(c)
 	}
 	if strings.HasPrefix(c.Scenario, "accept-during-close/") {
 		return runAccept(c)
